@@ -95,7 +95,44 @@ def check(run):
                      shape='ref-asym:%s/%s' % tuple(sorted([pt, at])))
         if pt == at and not ok:
             run.fail('argument of type %s rejected for parameter "%s" of the same type' % (at, wrap % pt), dict(param=wrap % pt, arg_type=at, errors=errs), shape='ref-same-rejected:' + pt)
-    run.cov.update(evaluations=len(cases) + len(refcases), distinct_nontrivial=len(verdict), traces_validated_against_impl=len(cases), exhaustive=True,
+    # ---- the same type spelled in two ways (range bounds as literals or through constants): equivalence must not depend on the side ----
+    spell = [('int[0,5]', 'int[N0,5]'), ('int[0,5]', 'int[0,N5]'), ('int[N0,5]', 'int[Z0,5]'), ('int[1,5]', 'int[N1,5]'), ('int[0,5]', 'int[0,5]'), ('int[N0,N5]', 'int[N0,N5]'), ('int[-1,5]', 'int[M1,5]')]
+    sdecl = 'const int N0 = 0; const int Z0 = 0; const int N1 = 1; const int N5 = 5; const int M1 = -1; bool cnd;\n'
+    smodels = []
+    for ta, tb in spell:
+        for form in ('array-eq', 'array-neq', 'struct-iif', 'ref-param', 'array-iif', 'struct-eq'):
+            for order in (0, 1):
+                a, b = (ta, tb) if order == 0 else (tb, ta)
+                if form in ('array-eq', 'array-neq', 'array-iif'):
+                    d = '%s va[2]; %s vb[2];\n' % (a, b)
+                    body = {'array-eq': 'cnd = va == vb;', 'array-neq': 'cnd = va != vb;', 'array-iif': 'va = cnd ? va : vb;'}[form]
+                elif form in ('struct-iif', 'struct-eq'):
+                    d = 'struct { %s f; } va; struct { %s f; } vb;\n' % (a, b)
+                    body = 'va = cnd ? va : vb;' if form == 'struct-iif' else 'cnd = va == vb;'
+                else:
+                    d = '%s va; %s vb;\nvoid g(%s &p) { }\n' % (a, b, a)
+                    body = 'g(vb);'
+                smodels.append((ta, tb, form, order, sdecl + d + 'void h() { %s }\nprocess P() { state A; init A; }\nsystem P;\n' % body))
+    j = vlib.Job()
+    for k, m in enumerate(smodels):
+        j.case('e%d' % k, fork=True).model('xta', m[4]).dump('errors').end()
+    rr = vlib.run_jobs(j)
+    sacc = {}
+    for k, (ta, tb, form, order, model) in enumerate(smodels):
+        c = rr['e%d' % k]
+        errs = [l.split('msg="')[1].split('"')[0] for l in c['cmds'][1][2] if l.startswith('error')] if len(c['cmds']) > 1 else ['?']
+        sacc[(ta, tb, form, order)] = (not errs, errs[:1], model)
+    nspell = 0
+    for (ta, tb, form, order), (ok, errs, model) in sacc.items():
+        if order == 1:
+            continue
+        nspell += 1
+        ok2, errs2, model2 = sacc[(ta, tb, form, 1)]
+        if ok != ok2:
+            run.fail('%s over the types %s and %s is %s in one order and %s in the other (%s)' % (form, ta, tb, 'accepted' if ok else 'rejected', 'accepted' if ok2 else 'rejected', (errs or errs2)[0] if (errs or errs2) else ''),
+                     dict(form=form, types=[ta, tb], model=model, model_swapped=model2), shape='asym-spelling:%s' % form)
+    run.cov['spelling_pairs_checked'] = nspell
+    run.cov.update(evaluations=len(cases) + len(refcases) + len(smodels), distinct_nontrivial=len(verdict), traces_validated_against_impl=len(cases), exhaustive=True,
                    rule='exhaustive: every binary operator of the typing table x every ordered pair of the %d realised operand classes (int, bounded int, bool, double, clock, clock difference, rate, invariant, guard, '
                         'constraint, two struct types, two array types, two scalar sets, three channel kinds, void), and inline-if over 5 condition classes x all branch pairs: '
                         'implementation class vs extracted Coq table; then both operand orders compared on the implementation; plus reference/const parameter x argument type matrix' % len(classes),
